@@ -14,6 +14,7 @@ from hypothesis import strategies as st
 
 from vlib import urlgrammar as G, transforms as T, normgen as N
 from vlib.core import Campaign, hyp_campaign
+from vlib import fuzz as F
 from checks.c01 import _fix_edges, POSITIONS, carrier, sweep_tokens, _legal
 from checks.c04 import clean_bases
 
@@ -27,6 +28,7 @@ RULE = ("pairs (u, v=T(u)) built to collide: T from the spelling family (canonic
 ASSUMPTIONS = [
     "implications are evaluated only when their premise is observed (no claim that a generated pair collides)",
     "options are identical on both sides; canonicalize_url uses its default_protocol",
+    "the composition equalities are claimed for URLs whose redirection-resolved form parses too (otherwise normalize_url returns its input unchanged, scheme included)",
 ]
 
 
@@ -37,6 +39,11 @@ def _fns(opts):
     n = lambda u: normalize_url(u, quoted=q, platform_aware=pa)  # noqa
     f = lambda u: fingerprint_url(u, platform_aware=pa, strip_suffix=ss)  # noqa
     return c, n, f
+
+
+def _returned_unchanged(u, opts):
+    from ural import normalize_url
+    return isinstance(normalize_url(u, quoted=opts.get("quoted", False), platform_aware=opts.get("platform_aware", False), unsplit=False), str)
 
 
 def eval_pair(case):
@@ -65,6 +72,10 @@ def eval_single(case):
     try:
         cu = c(u)
         case["_changed"] = cu != u
+        if _returned_unchanged(u, case["options"]) or _returned_unchanged(cu, case["options"]):
+            # the (redirection-resolved) URL cannot be parsed and normalize_url hands its input back as is: there is no normalized form to
+            # compare ("returned unchanged" is C05's clause; the same restriction as the pre-step law of C04)
+            return out
         if n(cu) != n(u):
             out.append(("C03/normalize-after-canonicalize", "normalize_url(canonicalize_url(%r)=%r)=%r but normalize_url(u)=%r (%r)" % (u, cu, n(cu), n(u), case["options"])))
         if f(cu) != f(u):
@@ -327,9 +338,22 @@ def _sweep(acc, shard, nshards, seed, tier, pairs=False):
                 acc.check(case, lambda c: c.pop("_changed", True), ["sweep:" + pos])
 
 
+def _fuzz_single(data):
+    u = F.parseable_url_without_redirection(data)
+    if u is None:
+        return None
+    k = len(data)
+    return {"kind": "single", "u": u, "options": {"quoted": bool(k & 1), "platform_aware": bool(k & 2), "strip_suffix": bool(k & 4)}}
+
+
+FUZZ_TARGETS = {"single": (_fuzz_single, lambda c: c.pop("_changed", True), None)}
+
+
 def campaigns(tier, seed):
     quick = tier == "quick"
     return [
+        Campaign("composition-coverage-guided", F.fuzz_campaign("single", runs=(2500, 150000), max_len=72, dictionary=F.URL_DICT, corpus=F.URL_CORPUS), "atheris",
+                 bounds="libFuzzer over UTF-8 strings <= 72 bytes that ural's preprocessing parses and from which no redirection is inferred; normalize / fingerprint after canonicalize, options from the input length"),
         Campaign("colliding-pairs", _pairs_campaign, "hypothesis",
                  bounds="5 pair families (spelling on dirty / normalize-oriented URLs, irrelevant on clean / normalize-oriented / platform bases), 1-3 composed transformations x 12 option sets"),
         Campaign("composition-grammar", hyp_campaign(_singles, lambda v: v, lambda c: c.pop("_changed", True), lambda c: ["opt:" + k for k, v in c["options"].items() if v],
